@@ -271,7 +271,7 @@ def r_pc(repo, tier):
                         if nd.kind == "stmt" and nd.ast is not None and not _pc_stores(nd.ast) and _reads_pc(nd.ast):
                             out.report(f.file, f.dqual, "reads pc after storing it (%s)" % isa, nd.line, "%s reads pc after it has assigned fmap[pc]" % name)
     out.stats["semantics"] = n
-    if n < 70:
+    if n < 50:
         raise AnalysisError("R-PC: only %d RISC-V semantics functions found" % n)
     return out
 
